@@ -31,6 +31,11 @@ def load(*modnames):
     return mods if len(mods) != 1 else mods[0]
 
 
+# modules whose module-global name `pandas` is bound to the contract model vf.pdstub while running symbolically
+PANDAS_STUBBED = ["pybrops.breed.prot.pt.G_E_Phenotyping", "pybrops.breed.prot.pt.TruePhenotyping", "pybrops.breed.prot.bv.MeanPhenotypicBreedingValue",
+                  "pybrops.breed.prot.bv.TrueBreedingValue", "pybrops.core.error.error_type_pandas", "pybrops.core.error.error_value_pandas"]
+
+
 def symbolic_mode(on=True):
     """(re)install the numpy proxy in every loaded pybrops module and switch it on/off"""
     from . import symnp, stubs
@@ -38,6 +43,8 @@ def symbolic_mode(on=True):
     symnp.PROXY.enabled = on
     # library functions replaced by contract models while running symbolically
     import scipy.interpolate
+    from . import pdstub
+    pdstub.install(on, *PANDAS_STUBBED)
     for name in ("pybrops.popgen.gmap.StandardGeneticMap", "pybrops.popgen.gmap.ExtendedGeneticMap"):
         mod = sys.modules.get(name)
         if mod is not None and hasattr(mod, "interp1d"):
